@@ -67,11 +67,11 @@ PROPS = {
     "C20": dict(
         level="fault_enumeration",
         batches=dict(
-            quick=[dict(harness="sysenv", build="san", runs=1200, wall_cap=300),
-                   dict(harness="sysenv", build="plain", runs=400, offset=1200, wall_cap=300)],
-            thorough=[dict(harness="sysenv", build="san", runs=6000, wall_cap=1200),
-                      dict(harness="sysenv", build="plain", runs=20000, offset=6000, wall_cap=1200),
-                      dict(harness="sysenv", build="plain", runs=60, offset=26000, valgrind=True, workers=8, wall_cap=1200)],
+            quick=[dict(harness="sysenv", build="san", runs=4000, wall_cap=300),
+                   dict(harness="sysenv", build="plain", runs=1500, offset=4000, wall_cap=300)],
+            thorough=[dict(harness="sysenv", build="san", runs=40000, wall_cap=1200),
+                      dict(harness="sysenv", build="plain", runs=120000, offset=40000, wall_cap=1200),
+                      dict(harness="sysenv", build="plain", runs=60, offset=160000, valgrind=True, workers=8, wall_cap=1200)],
         ),
         rule=("a case is one simulated history of executable_path()/prefix_path() calls, each against a freshly generated "
               "/proc/self/exe target (length, depth, byte classes from the plan) delivered through the wrapped readlink, "
